@@ -39,7 +39,8 @@ pub open spec fn i_live(s: S) -> bool {
     &&& forall|p: GcPtr| #[trigger] isobj(s, p) ==> s.edges.dom().contains(p)
     &&& forall|p: GcPtr| #[trigger] isobj(s, p) && !s.objs[p].live ==> s.edges[p].len() == 0
     &&& forall|p: GcPtr| #[trigger] isobj(s, p) && s.edges[p].len() > 0 ==> s.objs[p].needs_trace
-    &&& forall|p: GcPtr| #[trigger] s.pending.dom().contains(p) ==> !isobj(s, p) && !s.freed.contains(p)
+    &&& forall|p: GcPtr| #[trigger] s.pending.dom().contains(p) ==> !isobj(s, p) && !s.freed.contains(p) && !s.dropped.contains(p)
+            && (s.pending[p].edges.len() > 0 ==> s.pending[p].needs_trace)
 }
 
 // ---- I-tri (Mark): a fully traced object has no untraced pointer
